@@ -27,7 +27,7 @@ CONSTANTS Bodies,     \* the request bodies explored (see MC_Spans)
           Limit       \* parserDoer: p.attrs.Size+p.spans.Size > 1 MiB -> intermediate response (in size units of 64 KiB)
 
 VARIABLES body,       \* the request body (constant along a behaviour)
-          pc,         \* "start" | "keys" | "next" | "eof" | "done"
+          pc,         \* "start" | "keys" | "next" | "eof" | "done" | "rejected"
           i,          \* number of spans (array elements / lines / OTLP spans) entered so far
           j,          \* number of JSON members of span i consumed so far (Zipkin)
           z,          \* the zipkinDecoderV2 struct
@@ -96,7 +96,8 @@ ZKey(zz, s, key, tsKind) ==
 (* 1: one value > 64 KiB, counted in the payload and in its tag row; 2: one value > 256 KiB)                    *)
 Weight(big) == CASE big = 0 -> 0 [] big = 1 -> 2 [] big = 2 -> 9
 
-(* parserDoer.onSpan *)
+(* parserDoer.onSpan; its first statement rejects (HTTP 400) a span whose ids do not have 16 / 8 bytes *)
+IdsOk(tid, sid) == Len(tid) = W /\ Len(sid) = W
 OnSpan(c, snt, tid, sid, ts, dur, parent, name, svc, ptype, payload, kv, weight) ==
   LET row == [tid |-> tid, sid |-> sid, parent |-> parent, name |-> name, ts |-> ts, dur |-> dur, svc |-> svc,
               ptype |-> ptype, payload |-> payload]
@@ -198,12 +199,15 @@ ZSpanEnd == /\ pc = "keys" /\ j = Len(body.spans[i].order)
                    r  == OnSpan(cur, sent, z.tid, z.sid, z.ts, z.dur, z.parent, z.name, z.svc, 1, z.payload, kv,
                                 Weight(body.spans[i].big))
                IN  /\ z' = [z EXCEPT !.kv = kv]
-                   /\ cur' = r.cur /\ sent' = r.sent
-            /\ pc' = "next"
+                   /\ IF IdsOk(z.tid, z.sid) THEN cur' = r.cur /\ sent' = r.sent /\ pc' = "next"
+                      ELSE UNCHANGED <<cur, sent>> /\ pc' = "rejected"
             /\ UNCHANGED <<body, i, j>>
 OSpan == /\ body.proto = "otlp" /\ More
-         /\ LET r == OtlpSpan(cur, sent, OSpans(body)[i + 1]) IN cur' = r.cur /\ sent' = r.sent
-         /\ i' = i + 1 /\ pc' = "next"
+         /\ LET e == OSpans(body)[i + 1]
+                r == OtlpSpan(cur, sent, e)
+            IN  IF IdsOk(e.span.tid, e.span.sid) THEN cur' = r.cur /\ sent' = r.sent /\ pc' = "next"
+                ELSE UNCHANGED <<cur, sent>> /\ pc' = "rejected"
+         /\ i' = i + 1
          /\ UNCHANGED <<body, j, z>>
 (* Decode returned nil: the final ParserResponse *)
 Finish == /\ \/ pc = "eof"
@@ -358,7 +362,9 @@ InvReadBack         == DoneP(ReadBack)
 (* decoder hygiene: when a span object is entered the decoder carries nothing of an earlier span *)
 InvCleanDecoder == (pc = "keys" /\ j = 0) => (z.kv = <<>> /\ z.parent = <<>> /\ z.name = "" /\ z.svc = "" /\ z.payload = i)
 
-TypeOK == /\ pc \in {"start", "keys", "next", "eof", "done"}
+(* every body of the families is well formed: none is rejected *)
+InvAccepted == pc # "rejected"
+TypeOK == /\ pc \in {"start", "keys", "next", "eof", "done", "rejected"}
           /\ i \in 0..NSpans(body) /\ j \in 0..16
           /\ cur.size <= Limit
 =============================================================================
